@@ -113,6 +113,8 @@ EDIT_OPS = {1: 'AddItemToArray', 2: 'AddItemToObject', 3: 'AddItemToObjectCS', 4
             17: 'ReplaceItemInObjectCaseSensitive', 18: 'queries', 19: 'setters', 20: 'AddKindToObject'}
 for op, name in EDIT_OPS.items():
     for K in (2, 3, 4):
+        if K == 4 and op == 18:
+            continue          # the query family 'queries' does not finish for 4 children within 10 min
         QM(('C06', 'C07', 'C08') + (('C20',) if K == 2 else ()) + (('C14',) if K == 2 and op in (2, 3, 16) else ()), 'edit.%s.K%d' % (name, K), 'harness/edit.c', defs=['-DOP=%d' % op, '-DK=%d' % K], unwind=K + 3,
            unwindset=ML(K + 4, 60) + ['cJSON_Delete:2', 'cJSON_Delete.0:3', 'vf_build_rec:3', 'vf_memcpy.0:66', 'vf_strcpy.0:8', 'strlen.0:6', 'strcmp.0:6', 'strcpy.0:6', 'memcmp.0:4', 'check_list.0:%d' % (K + 3)],
            tiers=('quick', 'thorough') if K in (2, 3) else ('thorough',), cost=K * 5, functions=['cJSON_' + name if op < 18 else name, 'add_item_to_array', 'add_item_to_object', 'create_reference', 'get_array_item', 'get_object_item', 'cJSON_Delete', 'cJSON_strdup'])
@@ -206,11 +208,8 @@ QM(('C17', 'C14'), 'compose', 'harness/compose_unit.c', unwind=6, link=['cJSON.c
 QM(('C16', 'C17', 'C18'), 'cmpjson.number', 'harness/cmpjson.c', defs=['-DK=1', '-DNUMMODE'], unwind=3, link=['cJSON.c'], stub=['compare_json'], stub_lib='cJSON_Utils.c', unwindset=ML(4, 40), cost=10, witnesses=['number'],
    functions=['compare_json', 'compare_double'], timeout=900)
 
-# ------------------------------------------------------------------ integration (thorough only): the real parser without stubs
-for M in (1, 2):
-    QM(('C01', 'C03', 'C10'), 'e2e.M%d' % M, 'harness/parse_e2e.c', defs=['-DM=%d' % M, '-DCJSON_NESTING_LIMIT=2'], unwind=M + 3,
-       unwindset=ML(M + 3, 30) + ['cJSON_Delete:3', 'cJSON_Delete.0:%d' % (M + 2), 'walk:3', 'parse_value:4', 'parse_array:3', 'parse_object:3', 'memcmp.0:5', 'strncmp.0:7'],
-       tiers=('thorough',), cost=100, timeout=3600, mem_gb=30, functions=['cJSON_ParseWithLengthOpts', 'parse_value', 'parse_number', 'parse_string', 'parse_array', 'parse_object', 'cJSON_Delete'])
+# (the integration query of the real parser without stubs - harness/parse_e2e.c, M = 1..2, nesting limit 2 - gave no verdict in 60 min
+#  and is not registered)
 QM(('C15', 'C16'), 'ptr.index.L4', 'harness/ptr_index.c', defs=['-DL=4'], unwind=8, link=['cJSON.c'], unwindset=ML(8, 20), cost=3, functions=['decode_array_index_from_pointer'])
 
 # ------------------------------------------------------------------ post-processing: the sprintf model has 9 loops; give all of them the largest bound the query asked for
